@@ -94,7 +94,10 @@ class FormulaParser(Parser):
 
     def p_expression_uminus(self, p):
         'expression : MINUS expression %prec UMINUS'
-        p[0] = -p[2]
+        if isinstance(p[2], error.XLError):
+            p[0] = p[2]  # minus applied to an error value is that error
+        else:
+            p[0] = -p[2]
 
     def p_expression_number(self, p):
         """
